@@ -229,7 +229,17 @@ fn mutate_documents(doc: &Value, rng: &mut SplitMix, out: &mut Vec<String>) {
     }
 }
 
+/// libFuzzer entry: the bytes are the text of a persisted session document.
+pub fn fuzz_document(data: &[u8]) -> Result<(), Failure> {
+    let Ok(text) = std::str::from_utf8(data) else { return Ok(()) };
+    let cfg = DevCfg { region: RegionId::Eu868, join_bias: None, front: if data.len() % 2 == 0 { FrontKind::Async } else { FrontKind::Nb }, board: (14, 0) };
+    check_document(&cfg, text).map(|_| ())
+}
+
 pub fn replay(case: &Value, _kf: &KnownFindings) -> Result<(), Failure> {
+    if case["kind"] == "fuzz_raw" {
+        return fuzz_document(&unhex(case["data"].as_str().unwrap_or("")));
+    }
     match case["kind"].as_str() {
         Some("persist") => check_at(&History::from_json(&case["history"]), case["persist_after_steps"].as_u64().unwrap_or(0) as usize).map(|_| ()),
         Some("document") => check_document(&DevCfg::from_json(&case["config"]), case["text"].as_str().unwrap_or("")).map(|_| ()),
